@@ -565,30 +565,51 @@ func instrIndex(i ssa.Instruction) int {
 // instruction `from` (nil = function entry) without executing a cut instruction
 // or traversing a cut edge. The start instruction itself is not a cut.
 func ReachableAvoiding(fn *ssa.Function, from ssa.Instruction, cuts *Cuts, target ssa.Instruction) bool {
+	return reachImpl(fn, from, nil, -1, cuts, target)
+}
+
+// ReachableFromEdge: like ReachableAvoiding, starting by taking successor edge succ of block b.
+func ReachableFromEdge(fn *ssa.Function, b *ssa.BasicBlock, succ int, cuts *Cuts, target ssa.Instruction) bool {
+	return reachImpl(fn, nil, b, succ, cuts, target)
+}
+
+func reachImpl(fn *ssa.Function, from ssa.Instruction, eb *ssa.BasicBlock, esucc int, cuts *Cuts, target ssa.Instruction) bool {
 	if len(fn.Blocks) == 0 {
 		return false
 	}
 	tb := target.Block()
 	ti := instrIndex(target)
 	type st struct {
-		b   *ssa.BasicBlock
-		idx int
+		b    *ssa.BasicBlock
+		idx  int
+		from *ssa.BasicBlock // the predecessor through which b was entered (nil = unknown)
 	}
-	start := st{fn.Blocks[0], 0}
+	start := st{fn.Blocks[0], 0, nil}
 	if from != nil {
-		start = st{from.Block(), instrIndex(from) + 1}
+		start = st{from.Block(), instrIndex(from) + 1, nil}
 	}
-	seen := map[*ssa.BasicBlock]bool{}
+	if eb != nil {
+		if cuts != nil && cuts.Edges[Edge{eb, eb.Succs[esucc]}] {
+			return false
+		}
+		start = st{eb.Succs[esucc], 0, eb}
+	}
+	type key struct{ b, from *ssa.BasicBlock }
+	seen := map[key]bool{}
 	work := []st{start}
 	first := true
 	for len(work) > 0 {
 		s := work[len(work)-1]
 		work = work[:len(work)-1]
 		if s.idx == 0 {
-			if seen[s.b] {
+			k := key{s.b, nil}
+			if phiDecidedIf(s.b) {
+				k.from = s.from // path-sensitive only where the entry edge decides the branch
+			}
+			if seen[k] {
 				continue
 			}
-			seen[s.b] = true
+			seen[k] = true
 		} else if !first {
 			continue
 		}
@@ -607,14 +628,120 @@ func ReachableAvoiding(fn *ssa.Function, from ssa.Instruction, cuts *Cuts, targe
 		if blocked {
 			continue
 		}
-		for _, succ := range s.b.Succs {
+		only := -1
+		if s.idx == 0 && s.from != nil {
+			only = decidedSucc(s.b, s.from)
+		}
+		for i, succ := range s.b.Succs {
+			if only >= 0 && i != only {
+				continue // infeasible: the value that entered through this edge fixes the branch
+			}
 			if cuts != nil && cuts.Edges[Edge{s.b, succ}] {
 				continue
 			}
-			work = append(work, st{succ, 0})
+			work = append(work, st{succ, 0, s.b})
 		}
 	}
 	return false
+}
+
+// phiDecidedIf: b ends in `if φ ==/!= nil` (or a boolean φ) with φ a phi of b itself.
+func phiDecidedIf(b *ssa.BasicBlock) bool {
+	_, _, ok := phiIf(b)
+	return ok
+}
+
+func phiIf(b *ssa.BasicBlock) (phi *ssa.Phi, nilIsTrue bool, ok bool) {
+	ifi, isIf := b.Instrs[len(b.Instrs)-1].(*ssa.If)
+	if !isIf {
+		return nil, false, false
+	}
+	cmp, isCmp := ifi.Cond.(*ssa.BinOp)
+	if !isCmp || (cmp.Op != token.EQL && cmp.Op != token.NEQ) {
+		return nil, false, false
+	}
+	var other ssa.Value
+	if p, isPhi := cmp.X.(*ssa.Phi); isPhi && p.Block() == b {
+		phi, other = p, cmp.Y
+	} else if p, isPhi := cmp.Y.(*ssa.Phi); isPhi && p.Block() == b {
+		phi, other = p, cmp.X
+	}
+	if phi == nil || !IsNilConst(other) {
+		return nil, false, false
+	}
+	// nothing with side effects on the decision between the phis and the branch is required: the phi value is fixed on entry
+	return phi, cmp.Op == token.EQL, true
+}
+
+// decidedSucc: the only feasible successor of b when entered from pred, or -1.
+func decidedSucc(b, pred *ssa.BasicBlock) int {
+	phi, nilIsTrue, ok := phiIf(b)
+	if !ok {
+		return -1
+	}
+	idx := -1
+	n := 0
+	for i, p := range b.Preds {
+		if p == pred {
+			idx = i
+			n++
+		}
+	}
+	if idx < 0 || n != 1 {
+		return -1
+	}
+	v := phi.Edges[idx]
+	isNil, known := nilness(v, 0)
+	if !known {
+		return -1
+	}
+	if isNil == nilIsTrue {
+		return 0
+	}
+	return 1
+}
+
+// nilness: v is known to be nil / known to be non-nil.
+func nilness(v ssa.Value, d int) (isNil, known bool) {
+	if d > 4 {
+		return false, false
+	}
+	if IsNilConst(v) {
+		return true, true
+	}
+	switch x := v.(type) {
+	case *ssa.MakeInterface, *ssa.Alloc, *ssa.MakeSlice, *ssa.MakeMap, *ssa.MakeChan, *ssa.MakeClosure:
+		return false, true
+	case *ssa.ChangeInterface:
+		return nilness(x.X, d+1)
+	case *ssa.Call:
+		if f := x.Call.StaticCallee(); f != nil && f.Pkg != nil {
+			switch f.Pkg.Pkg.Path() + "." + f.Name() {
+			case "fmt.Errorf", "errors.New":
+				return false, true
+			}
+		}
+	case *ssa.Phi:
+		allNil, allNon := true, true
+		for _, e := range x.Edges {
+			n, k := nilness(e, d+1)
+			if !k {
+				return false, false
+			}
+			if n {
+				allNon = false
+			} else {
+				allNil = false
+			}
+		}
+		if allNil {
+			return true, true
+		}
+		if allNon {
+			return false, true
+		}
+	}
+	return false, false
 }
 
 // MustPass: every path from entry to target passes through a cut.
